@@ -285,6 +285,64 @@ def _lib_data_filter(vm, args):
             vm.globals = saved
 
 
+def _lib_data_join(vm, args):
+    """dataJoin(left, right, joinExpr[, rightExpr, isLeftJoin, variables]) as data.join_data does it: the right
+    expression once per right row (in order), then the left expression once per left row."""
+    import json as _json
+    from .core import canon as _canon
+    if len(args) < 3 or len(args) > 6 or not isinstance(args[0], list) or not isinstance(args[1], list) or \
+            not isinstance(args[2], str):
+        _fail()
+    right_text = args[3] if len(args) > 3 else None
+    is_left = args[4] if len(args) > 4 else False
+    variables = args[5] if len(args) > 5 else None
+    if (right_text is not None and not isinstance(right_text, str)) or not isinstance(is_left, bool) or \
+            any(not isinstance(r, dict) for r in args[0] + args[1]):
+        _fail()
+    left_expr = vm.expr_table[args[2]]
+    right_expr = vm.expr_table[right_text] if right_text is not None else left_expr
+    left_names, right_raw, right_names = {}, {}, {}
+    for row in args[0]:
+        for name in row:
+            left_names.setdefault(name, name)
+    for row in args[1]:
+        for name in row:
+            right_raw.setdefault(name, name)
+    for name in right_raw:
+        if name not in left_names:
+            right_names[name] = name
+        else:
+            ix = 2
+            while f'{name}{ix}' in left_names or f'{name}{ix}' in right_names or f'{name}{ix}' in right_raw:
+                ix += 1
+            right_names[name] = f'{name}{ix}'
+    saved = _data_eval_setup(vm, variables)
+
+    def key(v):
+        return _json.dumps(_canon(v), sort_keys=True)
+    try:
+        buckets = {}
+        for rrow in args[1]:
+            buckets.setdefault(key(vm.ev(right_expr, rrow)), []).append(rrow)
+        data = []
+        for lrow in args[0]:
+            k = key(vm.ev(left_expr, lrow))
+            if k in buckets:
+                for rrow in buckets[k]:
+                    joined = dict(lrow)
+                    for name, value in rrow.items():
+                        if name not in right_names:
+                            _fail()      # a callback added a field after the name map was built: KeyError, contained
+                        joined[right_names[name]] = value
+                    data.append(joined)
+            elif not is_left:
+                data.append(dict(lrow))
+        return data
+    finally:
+        if saved is not None:
+            vm.globals = saved
+
+
 def _lib_data_calc(vm, args):
     if len(args) < 3 or len(args) > 4 or not isinstance(args[0], list) or not isinstance(args[1], str) \
             or not isinstance(args[2], str):
@@ -349,6 +407,7 @@ LIB = {
     'systemFetch': _lib_system_fetch,
     'dataFilter': _lib_data_filter,
     'dataCalculatedField': _lib_data_calc,
+    'dataJoin': _lib_data_join,
 }
 
 
@@ -512,6 +571,12 @@ class RefVM:
             raise HostFailure('RefUnsupported', f'operator {op} on {ref_type(left)},{ref_type(right)}')
         if key == 'function':
             name = body['name']
+            if name == 'if':
+                # the special form: only the chosen branch is evaluated, in the caller's scope
+                a = body.get('args', ())
+                cond = self.ev(a[0], locs) if len(a) >= 1 else False
+                chosen = (a[1] if len(a) >= 2 else None) if truthy(cond) else (a[2] if len(a) >= 3 else None)
+                return self.ev(chosen, locs) if chosen is not None else None
             args = [self.ev(a, locs) for a in body['args']] if 'args' in body else None
             if locs is not None and name in locs:
                 fn = locs[name]
